@@ -25,6 +25,19 @@ CLAIMED = {
                 "each, preemption bound 2 (quick) / 3 (thorough) for DFS.",
         "technique": "TLA+ model checking (TLC) + trace validation of real executions + spec-to-code replay",
     },
+    "C17": {
+        "engine": "object",
+        "design_ref": "DESIGN.md §4.4, §7 C17",
+        "text": "DelayedQueue.tla (implementation-shaped consumer loop: lock / wait / peek / sleep with the lock released / "
+                "head identity re-check; close() as unlocked flag write + locked notify; virtual clock with gaps around the "
+                "delay boundary) is checked exhaustively by TLC including the liveness property 'close() unblocks' under "
+                "fairness; the real DelayedQueue runs on a virtual clock under the deterministic scheduler (all sequential "
+                "words, bounded-preemption DFS on concurrent programs incl. a clock thread, random programs) and TLC "
+                "validates every call/return/tick trace against the most permissive C17-object (DelayedQueueTrace.tla).",
+        "note": "Trusted: detsched shims (threading, time). Time is virtual and integral; 'never early' is judged on the "
+                "shim clock the library itself reads. Bounded: programs of <=7 operations, preemption bound 2 / 3.",
+        "technique": "TLA+ model checking (TLC, safety + liveness) + trace validation of real executions",
+    },
 }
 
 NOT_YET = "check not built yet (in progress, see DESIGN.md §12)"
